@@ -479,10 +479,15 @@ def r4_join_commit(a, tier):
         """the parameter of repeat() that the expression E (a name in F, a function of repeat's extent) stands for"""
         return a.extents.param_origin(fn, f, e.id) if isinstance(e, ast.Name) else None
 
+    def own(f, node, *names):
+        """a call <receiver>.<name>(...) on the context itself: `self` in a method, the context parameter in a module-level helper"""
+        parts = dotted(node.func).split('.')
+        return len(parts) == 2 and parts[1] in names and parts[0] in ('self', 'ctx', *(f.params[:1]))
+
     class Sem(Semantics):
         def call(self, ex, f, node, state):
             nm = dotted(node.func)
-            if ex.in_extent(f) and nm in ('self.isolate', 'self._isolate') and node.args:
+            if ex.in_extent(f) and own(f, node, 'isolate', '_isolate') and node.args:
                 arg = origin(f, node.args[0])
                 if arg == p_prefix:
                     state = frozenset((state - {'cut'}) | {'sep'})
@@ -490,14 +495,14 @@ def r4_join_commit(a, tier):
                     if 'sep' in state and 'cut' not in state:
                         state = frozenset(state | {'uncommitted'})
                     state = frozenset(state - {'sep', 'cut'})
-            if ex.in_extent(f) and nm in ('self.cut', 'self._cut'):
+            if ex.in_extent(f) and own(f, node, 'cut', '_cut'):
                 state = frozenset(state | {'cut'})
             return ex.default_call(f, node, state)
 
     ex = Executor(a.p, a.ct, a.resolver, Sem(), raises=a.raises)
     outs = ex.run(fn, frozenset())
     bad = [o for o in outs if 'uncommitted' in o.state]
-    has_sep = any(isinstance(n, ast.Call) and dotted(n.func) in ('self.isolate', 'self._isolate') and n.args
+    has_sep = any(isinstance(n, ast.Call) and own(f, n, 'isolate', '_isolate') and n.args
                   and origin(f, n.args[0]) == p_prefix for f, n in a.extents.walk(fn))
     rep.add({'fn': fn.qualname, 'separator_param': p_prefix, 'element_param': p_exp, 'separator_evaluated': has_sep,
              'commit_before_element_on_all_paths': not bad})
